@@ -13,8 +13,8 @@ import random
 from . import core
 
 N_HASH_CLASSES = 16
-N_SCHEDULES = 64           # schedule ids 0..63 per workload
-N_GEN = 4000               # gen:0 .. gen:N_GEN-1 (before exclusions)
+N_SCHEDULES = 32           # schedule ids 0..31 per workload
+N_GEN = 3000               # gen:0 .. gen:N_GEN-1 (before exclusions)
 
 
 def schedule_flags(sid: int) -> dict:
